@@ -18,13 +18,12 @@ Theorem C11_example_layout :
   end.
 Proof. vm_compute. reflexivity. Qed.
 
-(** the known defect on the model: // inside a block comment (known findings F-C11-...) *)
-Theorem C11_block_comment_slashes_refuted :
-  match scan_line false ("/* see http://x.org */ char a;" ++ nl) (mkScan false 0 []) with
-  | ScanOk out ins st => sc_in_comment st = true /\ ins = false
-  | ScanUnterminated => False
-  end.
-Proof. vm_compute. split; reflexivity. Qed.
+(** the repaired defect: a // inside a block comment cuts nothing; the comment is removed and the
+    declaration after it survives *)
+Theorem C11_block_comment_slashes_fixed :
+  scan_line false ("/* see http://x.org */ char a;" ++ nl) (mkScan false 0 [])
+  = ScanOk (" char a;" ++ nl) true (mkScan false 0 []).
+Proof. vm_compute. reflexivity. Qed.
 
 From CC Require Import Model.ScanSpec Proofs.ScanFacts.
 
@@ -35,24 +34,32 @@ Theorem C11_line_comment_dropped : forall asm pre cmt st,
   scan_line asm (pre ++ "//" ++ cmt) st = ScanOk pre true st.
 Proof. exact line_comment_dropped. Qed.
 
-(** a block comment ends at its first */ and is removed (body without //: the known finding) *)
+(** a block comment ends at its first */ and is removed, whatever it contains (// included) *)
 Theorem C11_block_comment_removed : forall asm pre body post st,
   sc_in_comment st = false -> no_markers pre ->
   forall no_trailing_slash : ends_with "/" pre = false,
   contains "*/" body = false ->
-  forall no_slashes_in_comment : contains "//" body = false,
-  forall post_not_slash : starts_with "/" post = false,
   contains """" post = false -> contains "//" post = false -> contains "/*" post = false ->
   post <> "" -> post <> nl ->
   scan_line asm (pre ++ "/*" ++ body ++ "*/" ++ post) st = ScanOk (pre ++ post) true st.
 Proof. exact scan_line_block_comment. Qed.
+
+(** ... also when a // comment follows it on the line *)
+Theorem C11_block_then_line_comment : forall asm pre body mid cmt st,
+  sc_in_comment st = false -> no_markers pre ->
+  forall no_trailing_slash : ends_with "/" pre = false,
+  contains "*/" body = false ->
+  contains """" mid = false -> contains "//" mid = false -> contains "/*" mid = false ->
+  forall mid_no_trailing_slash : ends_with "/" mid = false,
+  mid <> "" ->
+  scan_line asm (pre ++ "/*" ++ body ++ "*/" ++ mid ++ "//" ++ cmt) st = ScanOk (pre ++ mid) true st.
+Proof. exact scan_line_block_then_line_comment. Qed.
 
 (** a comment spanning lines: opened on one line ... *)
 Theorem C11_comment_open : forall asm a c st,
   sc_in_comment st = false -> no_markers a ->
   forall no_trailing_slash : ends_with "/" a = false,
   contains "*/" c = false ->
-  forall no_slashes_in_comment : contains "//" c = false,
   scan_line asm (a ++ "/*" ++ c) st
   = ScanOk a (negb (String.eqb a "")) (mkScan true (sc_next_lit st) (sc_lits st)).
 Proof. exact comment_spans_lines_open. Qed.
